@@ -1172,6 +1172,17 @@ def w_hmac(acc, task, seed):
                 k = skey if mode == "strkey" else key
                 _do(acc, {"kind": "hmac", "digest": name, "key": k, "msg": msg, "mode": mode}, ("hmac", name, klen, mlen, mode))
         acc.axis("hmac_keylen_vs_block", _key_class(klen, block))
+    # text keys whose CHARACTER count and utf-8 BYTE count fall on different sides of the block size
+    # (the key is 'encoded using utf-8' first, the block-size rule applies to the bytes)
+    for ch, width in (("é", 2), ("€", 3), ("\U0001f600", 4)):
+        for nchar in sorted({block // width, block // width + 1, block - 1, block}):
+            skey = ch * nchar
+            if not (nchar <= block < nchar * width or nchar * width in (block, block + width)):
+                continue
+            for mlen in (0, block + 1):
+                msg = filler(seed, mlen, b"hmac-msg" + name.encode())
+                for mode in ("strkey", "multi"):
+                    _do(acc, {"kind": "hmac", "digest": name, "key": skey, "msg": msg, "mode": mode}, ("hmac", name, f"text{width}x{nchar}", mlen, mode))
     acc.axis("digest", name)
 
 
